@@ -842,3 +842,54 @@ func ruleVALKINDS(c *Ctx, r *Report) {
 	}
 	r.floor(rule, "leaf payload kinds produced by the parser", n, 3)
 }
+
+// PARAM-KINDS (C04): the values of a query are ints, float64s and strings. The parameter list carries the
+// leaf payloads themselves, and the parameterized range function chooses its form from their Go kinds, so a
+// payload of any other kind (a uint64 for "ids that do not fit an int", a json.Number, a []byte) arrives as a
+// parameter the property does not allow and takes the wrong branch there.
+func rulePARAMKINDS(c *Ctx, r *Report) {
+	const rule = "PARAM-KINDS"
+	r.doc(rule, "every payload the token→literal function hands to a leaf constructor has the static type string, int or float64 (the kinds parameters are promised to have, and the kinds the parameterized range function's type switch distinguishes)")
+	pr := c.parserRoles()
+	if pr.Err != "" || pr.TokToLit == nil {
+		r.bad(rule, "anchor", "-", "token→literal function not found")
+		return
+	}
+	n := 0
+	seen := map[string]bool{}
+	for fn := range c.reachFrom([]*ssa.Function{pr.TokToLit}) {
+		if fnPkgPath(fn) != pkgRoot {
+			continue
+		}
+		for _, b := range fn.Blocks {
+			for _, in := range b.Instrs {
+				call, ok := in.(*ssa.Call)
+				if !ok || call.Call.StaticCallee() == nil || fnPkgPath(call.Call.StaticCallee()) != pkgExpr || len(call.Call.Args) == 0 {
+					continue
+				}
+				callee := call.Call.StaticCallee()
+				if callee.Signature.Results().Len() != 1 || !isExprPtr(callee.Signature.Results().At(0).Type()) {
+					continue
+				}
+				mi, ok := call.Call.Args[0].(*ssa.MakeInterface)
+				if !ok {
+					continue
+				}
+				k := typeStr(mi.X.Type())
+				key := "payload|" + k
+				if seen[key] {
+					continue
+				}
+				seen[key] = true
+				n++
+				switch k {
+				case "string", "int", "float64":
+					r.ok(rule, key, c.instrPos(in), "a promised parameter kind")
+				default:
+					r.bad(rule, key, c.instrPos(in), fmt.Sprintf("the token→literal function builds a leaf with a payload of type %s: it travels as a parameter of that kind (neither int, float64 nor string) and the parameterized range function, which picks its form from the kind of the first parameter, no longer recognises it as a number", k))
+				}
+			}
+		}
+	}
+	r.floor(rule, "payload kinds", n, 3)
+}
